@@ -241,6 +241,8 @@ func checkCase(c *fw.Ctx, s *chain.Sim, kind string, b types.Block, bs consensus
 	// concurrent callers on shared inputs
 	if workers > 1 {
 		var wg sync.WaitGroup
+		var otherMu sync.Mutex
+		var otherDiff [][2]string
 		verd := make([]string, workers)
 		apps := make([]applyResult, workers)
 		for w := 0; w < workers; w++ {
@@ -248,6 +250,17 @@ func checkCase(c *fw.Ctx, s *chain.Sim, kind string, b types.Block, bs consensus
 			go func(w int) {
 				defer wg.Done()
 				var e error
+				if w%4 == 3 && c09Prev != nil {
+					// a caller working on ANOTHER (state, block) pair at the same time: calls must not
+					// influence each other through anything shared behind the API
+					pv := c09Prev
+					pp, m := fw.Recover(func() { e = consensus.ValidateBlock(pv.cs, pv.b, pv.bs) })
+					if got := verdictOf(e, pp, m); got != pv.verdict {
+						otherMu.Lock()
+						otherDiff = append(otherDiff, [2]string{pv.verdict, got})
+						otherMu.Unlock()
+					}
+				}
 				pp, m := fw.Recover(func() { e = consensus.ValidateBlock(cs, b, bs) })
 				verd[w] = verdictOf(e, pp, m)
 				if w%2 == 0 {
@@ -259,6 +272,9 @@ func checkCase(c *fw.Ctx, s *chain.Sim, kind string, b types.Block, bs consensus
 			}(w)
 		}
 		wg.Wait()
+		for _, d := range otherDiff {
+			res.Violate(fw.Violation{Key: "c09-concurrent-verdict-differs:other-state", What: "ValidateBlock on an earlier (state, block) pair returned a different verdict while other callers validated another block", Replay: rp, Expected: d[0], Observed: d[1]})
+		}
 		for w := 0; w < workers; w++ {
 			if verd[w] != v1 {
 				res.Violate(fw.Violation{Key: "c09-concurrent-verdict-differs", What: "a concurrent ValidateBlock call returned a different verdict", Replay: rp, Expected: v1, Observed: verd[w]})
@@ -271,9 +287,22 @@ func checkCase(c *fw.Ctx, s *chain.Sim, kind string, b types.Block, bs consensus
 			res.Violate(fw.Violation{Key: "c09-input-mutated:concurrent:" + d, What: "concurrent calls modified their shared " + d, Replay: rp})
 		}
 		res.Count("concurrent-cases")
+		if kind == "valid" || c09Prev == nil {
+			c09Prev = &c09Case{cs: cs, b: b, bs: bs, verdict: v1}
+		}
 	}
 	_ = kind
 }
+
+// c09Prev: an earlier (state, block, supplement) with its verdict, validated again concurrently with later cases
+type c09Case struct {
+	cs      consensus.State
+	b       types.Block
+	bs      consensus.V1BlockSupplement
+	verdict string
+}
+
+var c09Prev *c09Case
 
 // scribble overwrites every byte of every slice reachable from v (through
 // pointers, structs, slices, arrays, interfaces).
